@@ -7,6 +7,7 @@ import (
 	"fmt"
 	"os"
 	"path/filepath"
+	"runtime"
 	"runtime/debug"
 	"strconv"
 	"strings"
@@ -836,14 +837,62 @@ func TestC15WritersExhaustive(t *testing.T) {
 			runW(Case15W{Dsts: allDsts, Seqs: [][]WStep{fs}})
 		}
 	})
-	st.SetExhaustive("writer_histories", map[string]any{"step_alphabet": len(alpha), "depth": depth, "lists": n, "bufio_fill_level_lists": bn, "copied_writer_lists": cn, "copied_writer_depth": forkDepth, "shards": shards})
+	// sinks that are out of order for a while: `before` (nothing or one item), then ONE failing step - every item of
+	// the alphabet, the sink taking r bytes of it before it fails, for every r = 0..size-1 (sizes above 12: the first
+	// five and the last two, which covers n == 0, a torn prefix, a complete prefix with (0, error) for the body, a torn
+	// body) - or two failing steps in a row, then every item as the first judged write after the failure, to the same
+	// destination (a quota sink that recovered: the Writer value does not change; any other kind: the Writer field
+	// pointed to a failing writer and is re-pointed) or to another one, and one more item behind it; also as copies of a
+	// base writer whose last call failed
+	fn := int64(0)
+	var scratch Info15
+	faultDsts := []string{DQuota, DBuf, DFrame, BufioDst(7, 3)}
+	for _, bad := range items {
+		size := bad.codec(&scratch).size
+		for room := 0; room < size; room++ {
+			if size > 12 && room > 4 && room < size-2 {
+				continue
+			}
+			for _, next := range items {
+				for failDst := range faultDsts {
+					for _, nextDst := range []int{failDst, (failDst + 1) % len(faultDsts)} {
+						idx++
+						if idx%shards != shard {
+							continue
+						}
+						for shape := 0; shape < 4; shape++ {
+							seq := []WStep{{Item: bad, Dst: failDst, Fail: true, Room: room}, {Item: next, Dst: nextDst}, {Item: items[(room+shape)%len(items)], Dst: failDst}}
+							c := Case15W{Dsts: faultDsts}
+							switch shape {
+							case 1: // something was written before the failure
+								seq = append([]WStep{{Item: next, Dst: failDst}}, seq...)
+							case 2: // the sink fails twice in a row
+								seq = append([]WStep{{Item: next, Dst: failDst, Fail: true, Room: room / 2}}, seq...)
+							case 3: // the writers are copies of a writer whose last call failed that way
+								c.Copy, c.Pre, c.PreFail = true, []Item{next, bad}, room+1
+								seq = seq[1:]
+							}
+							c.Seqs = [][]WStep{seq}
+							info, v := Run15W(c)
+							st.Report(t, "TestC15WritersExhaustive", c, v)
+							record15W(c, info)
+							fn++
+						}
+					}
+				}
+			}
+		}
+	}
+	st.SetExhaustive("writer_histories", map[string]any{"step_alphabet": len(alpha), "depth": depth, "lists": n, "bufio_fill_level_lists": bn, "copied_writer_lists": cn, "copied_writer_depth": forkDepth, "failing_sink_lists": fn, "shards": shards})
 }
+
+var drawnDsts = append(append([]string(nil), allDsts...), DQuota)
 
 // genDst draws a destination kind; a third are *bufio.Writer of a small drawn size (or the default 4096) pre-filled
 // to a drawn level.
 func genDst(t *rapid.T) string {
 	if rapid.IntRange(0, 2).Draw(t, "bufioDst") != 0 {
-		return rapid.SampledFrom(allDsts).Draw(t, "dstKind")
+		return rapid.SampledFrom(drawnDsts).Draw(t, "dstKind")
 	}
 	switch rapid.IntRange(0, 5).Draw(t, "bufioSizeClass") {
 	case 0:
@@ -892,6 +941,8 @@ func genCase15W(t *rapid.T, minG, maxG int) Case15W {
 		c.Dsts = append(c.Dsts, genDst(t))
 	}
 	g := rapid.IntRange(minG, maxG).Draw(t, "goroutines")
+	// half of the histories meet sinks that fail for a while
+	faulty := rapid.Bool().Draw(t, "failingSinks")
 	for i := 0; i < g; i++ {
 		n := rapid.IntRange(1, 12).Draw(t, "steps")
 		seq := make([]WStep, n)
@@ -899,6 +950,22 @@ func genCase15W(t *rapid.T, minG, maxG int) Case15W {
 			seq[j] = WStep{Item: genSmallItem(t), Dst: rapid.IntRange(0, nd-1).Draw(t, "dst")}
 			// the framing destinations are handed a copy of the goroutine's writer as it is at this point
 			seq[j].Fork = rapid.IntRange(0, 9).Draw(t, "fork") == 0
+			// the sink is out of order during one step in eight (the step after a failing one: one in two, so that sinks
+			// stay out of order for a while): it takes Room bytes - none, a few, any number - of the item and fails
+			failOdds := 7
+			if j > 0 && seq[j-1].Fail {
+				failOdds = 1
+			}
+			if faulty && rapid.IntRange(0, failOdds).Draw(t, "sinkFails") == 0 {
+				seq[j].Fail = true
+				switch rapid.IntRange(0, 3).Draw(t, "roomClass") {
+				case 0:
+				case 1, 2:
+					seq[j].Room = rapid.IntRange(1, 11).Draw(t, "room")
+				default:
+					seq[j].Room = rapid.IntRange(0, 2100).Draw(t, "room")
+				}
+			}
 		}
 		c.Seqs = append(c.Seqs, seq)
 	}
@@ -910,6 +977,9 @@ func genCase15W(t *rapid.T, minG, maxG int) Case15W {
 		c.Copy = true
 		for i, n := 0, rapid.IntRange(0, 3).Draw(t, "preItems"); i < n; i++ {
 			c.Pre = append(c.Pre, genSmallItem(t))
+		}
+		if faulty && len(c.Pre) > 0 && rapid.IntRange(0, 2).Draw(t, "baseWriterFailed") == 0 {
+			c.PreFail = rapid.IntRange(1, 12).Draw(t, "preFailRoom")
 		}
 	}
 	return c
@@ -1211,6 +1281,64 @@ func TestC16LongRuns(t *testing.T) {
 		ran++
 	}
 	st.SetExhaustive("long_continuation_runs", map[string]any{"run_lengths": sizes, "cases": ran, "shards": shards})
+}
+
+// =============================================================================================
+// C16: records whose body is tens of MiB, copied (newBuf=true) under different scheduling regimes
+
+func record16B(c Case16B, info Info16B) {
+	var h uint64
+	if info.NonTrivial() {
+		h = c.Hash()
+	}
+	st := vstat.For("C16")
+	st.Case(info.NonTrivial(), h, func() any { return c }, info.Classes()...)
+	st.AddExtra("big_record_newBuf_copies_compared_in_full", int64(info.Copies))
+	st.AddExtra("big_record_newBuf_bytes_compared", info.Bytes)
+}
+
+// TestC16BigCopies: complete records with a body of k*2^24 -1..+1 bytes, k = 2..5 (32..80 MiB; quick: seven of them),
+// and of lengths in between, non-zero position-dependent content, with a minimal / over-long prefix, alone or followed by
+// three bytes; every one decoded (a) with GOMAXPROCS(1), (b) with GOMAXPROCS(1) and busy sibling goroutines, (c) with
+// the processors of the run and two busy siblings per processor (thorough also GOMAXPROCS(2), and without siblings).
+// The newBuf=true results are compared in full, far end first, the moment the call returns.
+func TestC16BigCopies(t *testing.T) {
+	st := vstat.For("C16")
+	shard, shards := vstat.Shard()
+	lens := vstat.Pick(
+		[]int{2<<24 - 1, 2 << 24, 2<<24 + 1, 40<<20 + 777, 3 << 24, 4<<24 + 1, 5 << 24},
+		[]int{2<<24 - 1, 2 << 24, 2<<24 + 1, 36<<20 + 5, 40<<20 + 777, 3<<24 - 1, 3 << 24, 3<<24 + 1, 4<<24 - 1, 4 << 24, 4<<24 + 1, 72<<20 + 12345, 5<<24 - 1, 5 << 24, 5<<24 + 1})
+	type regime struct{ procs, busy int }
+	regimes := vstat.Pick(
+		[]regime{{1, 0}, {1, 3}, {0, -2}},
+		[]regime{{1, 0}, {1, 3}, {1, 16}, {2, 0}, {2, 4}, {0, 0}, {0, -2}})
+	rounds := vstat.Pick(2, 4)
+	maxLen := 0
+	for _, n := range lens {
+		maxLen = max(maxLen, n)
+	}
+	ReserveLong(8 + maxLen + 64)
+	ran, idx := int64(0), 0
+	for li, n := range lens {
+		for _, rg := range regimes {
+			idx++
+			if idx%shards != shard {
+				continue
+			}
+			c := Case16B{L: n, Seed: uint64(n) + uint64(idx), Pad: []int{0, 0, 1, 2}[(li+idx)%4], More: []int{0, 3}[idx/2%2], Procs: rg.procs, Busy: rg.busy, Rounds: rounds}
+			if rg.busy < 0 {
+				c.Busy = -rg.busy * runtime.GOMAXPROCS(0)
+			}
+			info, v := Run16B(c)
+			if v != nil {
+				st.Report(t, "TestC16BigCopies", c, v)
+			}
+			record16B(c, info)
+			ran++
+		}
+	}
+	st.SetExhaustive("big_copies", map[string]any{"body_lengths": lens, "regimes_GOMAXPROCS_busy": fmt.Sprint(regimes), "rounds": rounds, "cases": ran, "shards": shards})
+	st.SetExtra("big_copies_peak_resident_kB", peakRSSkB())
 }
 
 // =============================================================================================
@@ -1527,6 +1655,15 @@ func TestReplay(t *testing.T) {
 		info, v := Run15Z(c)
 		vstat.For("C15").Report(t, "TestReplay", c, v)
 		record15Z(c, info)
+	case strings.Contains(env.Test, "BigCopies"):
+		var c Case16B
+		if _, err := vstat.LoadReplay(p, &c); err != nil {
+			t.Fatalf("cannot load %s: %v", p, err)
+		}
+		c.Rounds = max(c.Rounds, 8) // the schedule is met by chance: more repetitions than the search spends per case
+		info, v := Run16B(c)
+		vstat.For("C16").Report(t, "TestReplay", c, v)
+		record16B(c, info)
 	case strings.Contains(env.Test, "LongRuns"):
 		var c Case16L
 		if _, err := vstat.LoadReplay(p, &c); err != nil {
